@@ -6,6 +6,7 @@
 package main
 
 import (
+	"connectrpc.com/vanguard"
 	"bufio"
 	"encoding/hex"
 	"encoding/json"
@@ -152,12 +153,29 @@ func main() {
 		return
 	}
 	c.gen = GenInfo{Suite: *suite, Seed: *seed, N: *n, Tier: *tier}
+	// every pooled buffer is poisoned when it is released, and released buffers are watched
+	vanguard.VerifPoolPoison.Store(true)
 	fn, ok := suites[*suite]
 	if !ok {
 		fmt.Fprintf(os.Stderr, "unknown suite %q\n", *suite)
 		os.Exit(2)
 	}
-	fn(c)
+	func() {
+		defer func() {
+			if r := recover(); r != nil {
+				if _, ok := r.(suiteAbort); !ok {
+					panic(r)
+				}
+			}
+		}()
+		fn(c)
+	}()
+	for _, h := range hangs {
+		c.emit(Case{Suite: "hang.e2e", In: L{B(h)}, Out: L{}, Tags: []string{"hang"}, Desc: h})
+	}
+	for _, h := range lateWrites {
+		c.emit(Case{Suite: "poolwrite.e2e", In: L{B(h)}, Out: L{}, Tags: []string{"poolwrite"}, Desc: h})
+	}
 	w.Flush()
 	// distribution summary on stderr as JSON
 	sum, _ := json.Marshal(map[string]any{"suite": *suite, "cases": c.count, "tags": c.tagHit})
